@@ -569,6 +569,14 @@ package server
 //@   ensures [C20:tree_transactions] result0 != nil && wsres(s, params.TextDocument.URI) != nil ==> len(allTransactions) == treeLen(wsres(s, params.TextDocument.URI).Primary, wsres(s, params.TextDocument.URI).Files, wsres(s, params.TextDocument.URI).FileOrder) && (forall i int :: {allTransactions[i]} 0 <= i && i < len(allTransactions) ==> allTransactions[i] == treeAt(wsres(s, params.TextDocument.URI).Primary, wsres(s, params.TextDocument.URI).Files, wsres(s, params.TextDocument.URI).FileOrder, i))
 //@   ensures [C20:balances_are_sums] result0 != nil && wsres(s, params.TextDocument.URI) != nil ==> forall a string, c string :: balances[a][c] == tsum(allTransactions, len(allTransactions), a, c)
 
+// The number shown when hovering a payee: the transactions of the tree whose payee or whose whole description is the payee.
+//@ specdef pcount(ts []ast.Transaction, i int, p string) int := ite(i <= 0, 0, pcount(ts, i - 1, p) + ite(ts[i - 1].Payee == p || ts[i - 1].Description == p, 1, 0))
+//@ func buildPayeeHoverWithTransactions
+//@   props C20
+//@   ensures [C20:payee_count] count == pcount(transactions, len(transactions), payee)
+//@   loop 1 invariant 0 - 1 <= rangeindex && rangeindex <= len(transactions) - 1 && count == pcount(transactions, rangeindex + 1, payee)
+//@   loop 1 decreases len(transactions) - rangeindex
+
 // ---- C16 / C15: candidate lists of completion ----
 // The candidates in account context: the accounts indexed under the typed parent prefix; when the prefix is not a key of
 // the index (it is cut heuristically at the last blank) every account stays a candidate, so that every existing name
